@@ -35,6 +35,31 @@ thread_local! {
     static PAUSES: RefCell<Vec<u32>> = const { RefCell::new(Vec::new()) };
     static PAUSE_LEFT: Cell<u32> = const { Cell::new(0) };
     static STEPS: Cell<u64> = const { Cell::new(0) };
+    static SEEDS: RefCell<Vec<(u8, i32)>> = const { RefCell::new(Vec::new()) };
+}
+
+/// Record that an RNG was seeded at a story-visible site (kind 0: RANDOM /
+/// LIST_RANDOM, one u32 draw; kind 1: shuffle, a sequence of i32 draws).
+pub(crate) fn note_seed(kind: u8, seed: i32) {
+    SEEDS.with(|s| s.borrow_mut().push((kind, seed)));
+}
+
+/// The seeds noted since the last call.
+pub fn take_seeds() -> Vec<(u8, i32)> {
+    SEEDS.with(|s| s.borrow_mut().drain(..).collect())
+}
+
+/// First `u32` drawn from `StdRng::seed_from_u64(seed as u64)`.
+pub fn rng_u32(seed: i32) -> u32 {
+    use rand::{RngExt, SeedableRng, rngs::StdRng};
+    StdRng::seed_from_u64(seed as u64).random::<u32>()
+}
+
+/// First `n` `i32`s drawn from `StdRng::seed_from_u64(seed as u64)`.
+pub fn rng_i32_seq(seed: i32, n: usize) -> Vec<i32> {
+    use rand::{RngExt, SeedableRng, rngs::StdRng};
+    let mut rng = StdRng::seed_from_u64(seed as u64);
+    (0..n).map(|_| rng.random::<i32>()).collect()
 }
 
 /// Every `StoryState` created from now on (construction, reset) uses this seed.
@@ -325,4 +350,9 @@ pub fn verif_path_append(base: &str, rel: &str) -> String {
     let pa = Path::new_with_components_string(Some(base));
     let pb = Path::new_with_components_string(Some(rel));
     pa.path_by_appending_path(&pb).to_string()
+}
+
+/// Drive the streaming loader's tokenizer on `s` (see `json::verif_hooks::tokenize`).
+pub fn verif_tokenize(s: &str, ops: &str) -> Vec<String> {
+    crate::json::verif_hooks::tokenize(s, ops)
 }
